@@ -72,6 +72,16 @@ class Concrete(object):
             return v
         return self.cname[n] + ("|" + v if v else "")
 
+    def value(self, n, v, asdt):
+        """what is assigned: the text or - where the child is a field of a base datatype - an object of that datatype"""
+        if asdt and v and (self.kind == "zseg" or (self.kind == "seg" and n == "A")):
+            from .. import tables as T
+            dt = "ST" if self.kind == "zseg" else next((r["dt"] for r in (T.seg_rows(self.version, "PID") or []) if r["name"] == "PID_8"), "ST")
+            cls = T.lib(self.version).BASE_DATATYPES.get(dt)
+            if cls is not None:
+                return cls(v)
+        return self.text(n, v)
+
     def free(self, n, v, l):
         from hl7apy.core import Field, Segment
         lvl = self.lvl if l == 1 else self.other
@@ -238,9 +248,9 @@ class World(object):
         nm = c.cname.get(op.get("n"), None)
         attr = nm.lower() if nm else None
         if o == "SetName":
-            setattr(P, attr, c.text(op["n"], op["v"]))
+            setattr(P, attr, c.value(op["n"], op["v"], op.get("asdt")))
         elif o == "SetIdx":
-            getattr(P, attr)[op["i"]] = c.text(op["n"], op["v"])
+            getattr(P, attr)[op["i"]] = c.value(op["n"], op["v"], op.get("asdt"))
         elif o == "SetObj":
             setattr(P, attr, self.objs[op["c"]])
         elif o == "SetAt":
@@ -356,6 +366,7 @@ READ_HOWS = ["get", "len", "iter", "repr", "er7", "validate", "deep", "deepvalue
 
 def norm_op(op):
     d = dict(op)
+    d.pop("asdt", None)      # (the value handed over as a datatype object: the same operation for the model)
     if "v" in d:
         d["v"] = cps(d["v"])
     return d
@@ -482,9 +493,11 @@ def alphabet(names, objs, vals, maxkids):
             ops.append({"op": "CopyFrom", "p": p, "n": n, "q": 3 - p})
             for v in vals:
                 ops.append({"op": "SetName", "p": p, "n": n, "v": v})
+            ops.append({"op": "SetName", "p": p, "n": n, "v": vals[0], "asdt": True})
             for i in range(0, maxkids + 1):
                 ops.append({"op": "DelIdx", "p": p, "n": n, "i": i})
                 ops.append({"op": "SetIdx", "p": p, "n": n, "i": i, "v": vals[-1]})
+                ops.append({"op": "SetIdx", "p": p, "n": n, "i": i, "v": vals[0], "asdt": True})
             for c in range(1, objs + 1):
                 ops.append({"op": "SetObj", "p": p, "n": n, "c": c})
         ops.append({"op": "Adopt", "p": p, "q": 3 - p})
